@@ -55,10 +55,14 @@ type upScript struct {
 	Items      []upItem `json:"items"`
 	Cuts       []int    `json:"write_cuts"` // cut positions in the concatenated byte stream (nil: one write per item)
 	CutMode    string   `json:"cut_mode"`
-	Phone      string   `json:"phone,omitempty"` // decimal phone of the terminal (default 13800138000)
+	Phone      string   `json:"phone,omitempty"`       // decimal phone of the terminal (default 13800138000)
+	PhoneRaw   kit.Hex  `json:"phone_bytes,omitempty"` // the phone field as raw bytes (6 or 10; nibbles a..f allowed); overrides Phone
 }
 
 func (s upScript) phoneBCD() []byte {
+	if len(s.PhoneRaw) > 0 {
+		return s.PhoneRaw
+	}
 	if s.Phone == "" {
 		return phoneFor(s.V2019)
 	}
